@@ -200,10 +200,10 @@ Scenario generate(const std::string& prop, uint64_t seed, const std::string& tie
     bool numeric = false;
     if ((prop == "C03" || prop == "C15") && r.chance(0.2)) {
         const bool rot = r.chance(0.6);
-        sc.kernel = rot ? "rot" : "unif";
+        sc.kernel = rot ? (r.chance(0.2) ? "rot_float" : "rot") : "unif";
         static const char* exr[] = {"omp", "omptsm", "omptsm", "seq", "seqtsm"};
-        static const char* exu[] = {"omp", "omp", "omp", "seq"};
-        sc.executor = rot ? exr[r.below(prop == "C03" ? 3 : 5)] : exu[r.below(prop == "C03" ? 3 : 4)];
+        static const char* exu[] = {"omp", "omp", "omptsm", "seq", "seqtsm"};
+        sc.executor = rot ? exr[r.below(prop == "C03" ? 3 : 5)] : exu[r.below(prop == "C03" ? 3 : 5)];
         numeric = true;
     }
     if (!numeric && (prop == "C02" || prop == "C03" || prop == "C15" || prop == "C13") && r.chance(0.12)
@@ -219,7 +219,7 @@ Scenario generate(const std::string& prop, uint64_t seed, const std::string& tie
         && (sc.executor == "seq" || sc.executor == "omp" || sc.executor == "seqtsm" || sc.executor == "omptsm")) {
         sc.kernel = "test";   // the library's own TbfTestKernel (level- and position-blind, integer)
     }
-    if (const char* f = getenv("TBFSIM_FORCE_KERNEL")) { sc.kernel = f; numeric = (sc.kernel == "rot" || sc.kernel == "unif"); if (sc.kernel == "unif" && sc.isTsm()) sc.executor = "omp"; }
+    if (const char* f = getenv("TBFSIM_FORCE_KERNEL")) { sc.kernel = f; numeric = sc.isNumeric(); if (sc.kernel == "unif" && sc.isTsm()) sc.executor = "omp"; }
     // ordering
     {
         int pm = 100, pp = 0, ph = 0;
@@ -234,6 +234,7 @@ Scenario generate(const std::string& prop, uint64_t seed, const std::string& tie
         if (const char* f = getenv("TBFSIM_FORCE_ORDERING")) sc.ordering = f;
         if (sc.executor.rfind("specx", 0) == 0 || sc.executor.rfind("starpu", 0) == 0 || numeric || sc.isFloat() || sc.kernel.rfind("weight_s", 0) == 0 || sc.kernel == "test") sc.ordering = "morton";
         if (sc.kernel == "rot" && r.chance(0.35)) sc.ordering = "periodic";   // the rotation kernel also ships a periodic near field
+        if (sc.kernel == "unif" && !sc.isTsm() && r.chance(0.3)) sc.ordering = "periodic";   // and so does the uniform kernel
     }
 
     sc.height = int(pickWeighted(r, {{1, 3}, {2, 7}, {3, 25}, {4, 32}, {5, 25}, {6, 8}}));
@@ -327,7 +328,7 @@ Scenario generate(const std::string& prop, uint64_t seed, const std::string& tie
     HistOp full; full.op = "execute"; full.flags = F_ALL;
     bool topSequence = false;
     const char* forceTop = getenv("TBFSIM_FORCE_TOP");
-    if (sc.isPeriodic() && sc.height >= 2 && prop != "C12" && prop != "C13" && (r.chance(0.6) || forceTop)) {
+    if (sc.isPeriodic() && sc.height >= 2 && prop != "C12" && prop != "C13" && sc.kernel != "unif" && (r.chance(0.6) || forceTop)) {
         // the documented periodic sequence: bottom-to-top, top tree, transfer, top-to-bottom
         sc.topLevels = int(r.below(5)) - 1;
         if (forceTop) sc.topLevels = atoi(forceTop);
